@@ -188,10 +188,13 @@ def json_lines(b):
 # findings / violations / evidence
 
 def load_known():
-    p = os.path.join(VERIF, "known_findings.json")
-    if not os.path.exists(p):
-        return []
-    return json.load(open(p)).get("findings", [])
+    """known_findings.json plus known_findings.d/*.json (one file per group of properties)."""
+    import glob
+    res = []
+    for p in [os.path.join(VERIF, "known_findings.json")] + sorted(glob.glob(os.path.join(VERIF, "known_findings.d", "*.json"))):
+        if os.path.exists(p):
+            res += json.load(open(p)).get("findings", [])
+    return res
 
 
 def match_known(prop, features, known=None):
